@@ -22,11 +22,11 @@ fn keys() -> Vec<Address> {
     };
     v.push(set(0, 0b1000_0000)); // differs at trie level 0
     v.push(set(0, 0b0000_0100)); // shares 1 level (bit 5)
+    v.push(set(0, 0b0000_0001)); // low bit of the byte straddling levels 1/2
     v.push(set(1, 0b0010_0000)); // shares 2 levels (bit 10)
+    v.push(set(31, 0b0000_0001)); // shares 51 levels (bit 255)
     v.push(set(6, 0b0010_0000)); // shares 10 levels (bit 50)
     v.push(set(15, 0b0000_0100)); // shares 25 levels (bit 125)
-    v.push(set(31, 0b0000_0001)); // shares 51 levels (bit 255)
-    v.push(set(0, 0b0000_0001)); // low bit of the byte straddling levels 1/2
     v.push(set(31, 0b0000_0010)); // bit 254
     v
 }
@@ -50,7 +50,7 @@ fn content_key(w: &World, ks: &[Address]) -> Key {
     (
         w.forks
             .iter()
-            .map(|f| f.rf.iter().map(|(k, v)| (ks.iter().position(|x| x == k).unwrap(), v[0])).collect())
+            .map(|f| f.rf.iter().map(|(k, v)| (ks.iter().position(|x| x == k).unwrap(), v.first().copied().unwrap_or(0))).collect())
             .collect(),
         w.active,
     )
@@ -114,12 +114,14 @@ fn apply(w: &mut World, op: &Op, ks: &[Address], trace: &[Op], report: &Report) 
     match op {
         Op::Insert(k, v) => {
             let f = &mut w.forks[w.active];
-            let old = f.real.insert(ks[*k], vec![*v]);
-            let want = f.rf.insert(ks[*k], vec![*v]);
+            // value code 0 = the zero-length value (an ordinary entry, not a vacant slot)
+            let val: Vec<u8> = if *v == 0 { vec![] } else { vec![*v] };
+            let old = f.real.insert(ks[*k], val.clone());
+            let want = f.rf.insert(ks[*k], val.clone());
             if old != want {
                 report.violation("C20:insert-returns-wrong-old-value", format!("{old:?} vs {want:?}"), json!({"ops": trace.iter().map(|o| format!("{o:?}")).collect::<Vec<_>>()}));
             }
-            f.lt.observe(&ks[*k], want.as_deref(), Some(&[*v]));
+            f.lt.observe(&ks[*k], want.as_deref(), Some(&val));
         }
         Op::Remove(k) => {
             let f = &mut w.forks[w.active];
@@ -160,6 +162,7 @@ fn explore(report: &Report, nkeys: usize, max_forks: usize, max_states: usize, l
         for k in 0..nkeys {
             ops.push(Op::Insert(k, 1));
             ops.push(Op::Insert(k, 2));
+            ops.push(Op::Insert(k, 0));
             ops.push(Op::Remove(k));
         }
         if w.forks.len() < max_forks {
@@ -418,7 +421,7 @@ fn same_slot_versions(report: &Report) -> usize {
 pub fn run(tier: Tier) -> i32 {
     let report = Report::new("C20", tier, "model_checking");
     let mut fams = Vec::new();
-    fams.push(explore(&report, tier.pick(8, 9), 1, 30_000_000, "single-fork-clustered-keys"));
+    fams.push(explore(&report, tier.pick(6, 8), 1, 30_000_000, "single-fork-clustered-keys"));
     fams.push(explore(&report, tier.pick(3, 4), 2, 3_000_000, "two-forks"));
     fams.push(explore(&report, tier.pick(2, 3), 3, tier.pick(400_000, 3_000_000), "three-forks"));
     let states: usize = fams.iter().map(|f| f["states"].as_u64().unwrap() as usize).sum();
